@@ -1,25 +1,32 @@
 import JL.Generated.Fns
+import JL.Lemmas.TieAuto
 import JL.Lemmas.TieB
 /-! tie: `to_number_value`, as translated from the crate's current source, is the model's function - for every input -/
 namespace JL.Tie
 open JL JL.Lemmas.TieB
 
+set_option exponentiation.threshold 3000 in
+/-- the literal 2^63, as `simp` leaves it -/
+theorem lim63' : F64.fin false (2 ^ 1137) = I64_LIMIT := by rw [← lim63, Nat.one_mul]
+set_option exponentiation.threshold 3000 in
+/-- the literal 2^64, as `simp` leaves it -/
+theorem lim64' : F64.fin false (2 ^ 1138) = U64_LIMIT := by rw [← lim64, Nat.one_mul]
+/-- `x.fract() == 0.0` after the unfolding of `==` -/
+theorem fract_eq_zero' (x : F64) : F64.eq (Rs.fract x) F64.zero = x.fractIsZero := fract_eq_zero x
+
 theorem to_number_value (x : F64) : Gen.to_number_value x = JL.toNumberValue x := by
-  unfold Gen.to_number_value JL.toNumberValue
-  simp only [lim63, lim64, fract_eq_zero, Rs.ge_f64]
-  generalize hi : Rs.to_i64 x = ti
-  generalize hu : Rs.to_u64 x = tu
-  simp only [rs]
+  -- the cases of the model; in each, what the saturating cast of the code computes there
   rcases Bool.eq_false_or_eq_true (x.fractIsZero && F64.ge x (F64.negate I64_LIMIT) && F64.lt x I64_LIMIT) with c1 | c1
-  · simp only [c1]
-    simp only [Bool.and_eq_true] at c1
-    simp [← hi, to_i64_eq_trunc x c1.1.2 c1.2]
-  · simp only [c1]
-    rcases Bool.eq_false_or_eq_true (x.fractIsZero && F64.ge x I64_LIMIT && F64.lt x U64_LIMIT) with c2 | c2
-    · simp only [c2]
-      simp only [Bool.and_eq_true] at c2
-      simp [← hu, to_u64_eq_trunc x c2.1.2 c2.2]
-    · simp only [c2]
-      cases h : Num.ofF64? x <;> simp
+  · have c := c1
+    simp only [Bool.and_eq_true] at c
+    have hi := to_i64_eq_trunc x c.1.2 c.2
+    tie_close [Gen.to_number_value, JL.toNumberValue, ↓lim63, ↓lim64, ↓lim63', ↓lim64', ↓fract_eq_zero, ↓fract_eq_zero']
+  · rcases Bool.eq_false_or_eq_true (x.fractIsZero && F64.ge x I64_LIMIT && F64.lt x U64_LIMIT) with c2 | c2
+    · have c := c2
+      simp only [Bool.and_eq_true] at c
+      have hu := to_u64_eq_trunc x c.1.2 c.2
+      tie_close [Gen.to_number_value, JL.toNumberValue, ↓lim63, ↓lim64, ↓lim63', ↓lim64', ↓fract_eq_zero, ↓fract_eq_zero']
+    · tie_close [Gen.to_number_value, JL.toNumberValue, ↓lim63, ↓lim64, ↓lim63', ↓lim64', ↓fract_eq_zero, ↓fract_eq_zero']
+        splitting Num.ofF64?
 
 end JL.Tie
